@@ -81,7 +81,8 @@ LEAN_RESERVED = {
     "type", "Type", "Prop", "Sort", "forall", "exists", "using", "deriving", "mutual", "local", "private", "set",
     "return", "for", "unless", "try", "catch", "finally", "macro", "syntax", "notation", "universe", "variable",
     "protected", "partial", "abbrev", "inductive", "extends", "this", "nomatch", "nofun", "calc", "suffices",
-    "obtain", "id", "fuel"}
+    "obtain", "id", "fuel", "attribute", "axiom", "instance", "infix", "prefix", "postfix", "register", "export",
+    "opaque", "noncomputable", "unsafe", "omit", "include", "nonrec", "builtin", "scoped", "public", "meta", "module"}
 
 EXC_MAP = {   # Python exception class (last attribute) -> Exc constructor, as common.exc_name prints them
     "IndexError": ".index", "ValueError": ".value", "TypeError": ".type_", "KeyError": ".key",
@@ -95,6 +96,85 @@ EXC_MAP = {   # Python exception class (last attribute) -> Exc constructor, as c
 HANDLER_MAP = {"struct.error": ".struct", "IndexError": ".index", "ValueError": ".value", "TypeError": ".type_",
                "KeyError": ".key"}
 LOG_ROOTS = {"log", "logging"}
+
+
+ERRNO = {   # errno constants the sources use (Linux values, as the models and common.exc_name print them)
+    "EPERM": 1, "ENOENT": 2, "EIO": 5, "EBADF": 9, "EAGAIN": 11, "EWOULDBLOCK": 11, "ENOMEM": 12, "EACCES": 13,
+    "EFAULT": 14, "EBUSY": 16, "ENODEV": 19, "EINVAL": 22, "EPIPE": 32, "ENOTSUP": 95, "EOPNOTSUPP": 95,
+    "EDESTADDRREQ": 89, "EMSGSIZE": 90, "EADDRINUSE": 98, "EADDRNOTAVAIL": 99, "ECONNRESET": 104, "ENOBUFS": 105,
+    "EISCONN": 106, "ENOTCONN": 107, "ESHUTDOWN": 108, "ETIMEDOUT": 110, "ECONNREFUSED": 111, "EALREADY": 114,
+    "EINPROGRESS": 115, "ENOTSOCK": 88, "EPROTO": 71,
+}
+LLCP_ERROR_CLASSES = ("err.Error", "nfc.llcp.Error", "nfc.llcp.err.Error", "llcp.Error")
+IO_ERROR_CLASSES = ("IOError", "OSError")
+
+
+def is_odd_bind(src):
+    """a bind whose source text is not a plain dotted name (a call, subscript, comparison ..)"""
+    return re.fullmatch(r"[A-Za-z_][A-Za-z_0-9]*(\.[A-Za-z_][A-Za-z_0-9]*)*", src) is None
+
+
+def is_docstring(x):
+    return isinstance(x, ast.Expr) and isinstance(x.value, ast.Constant) and isinstance(x.value.value, str)
+
+
+def find_def_node(module, qual):
+    """the FunctionDef named by `qual` ("f", "Cls.m", "Outer.Inner.m", "Cls.prop@setter")"""
+    node = module
+    for part in qual.split("."):
+        want_setter = part.endswith("@setter")
+        part = part[:-7] if want_setter else part
+        for n in node.body:
+            if isinstance(n, (ast.ClassDef, ast.FunctionDef)) and n.name == part:
+                is_setter = isinstance(n, ast.FunctionDef) and any(
+                    ast.unparse(d) == part + ".setter" for d in n.decorator_list)
+                if is_setter != want_setter:
+                    continue
+                node = n
+                break
+        else:
+            raise Refuse("definition %s not found" % qual)
+    if not isinstance(node, ast.FunctionDef):
+        raise Refuse("%s is not a function" % qual)
+    return node
+
+
+def select_stmts(fn, sp):
+    """the statements of function node `fn` that spec `sp` translates: descend along `sp.path`
+    ([(k, "body" | "orelse" | "finalbody" | ("handlers", i)), ..]: statement k of the current list, docstrings not
+    counted, then that field of it), then apply `sp.stmts` ((i, j) or an explicit index list)"""
+    if sp.expr is not None:
+        want = ast.unparse(ast.parse(sp.expr, mode="eval").body)
+        if sp.path or sp.stmts is not None:      # search only in the statements that path/stmts select
+            inner = Spec(sp.group, sp.lean, sp.file, sp.qual, sp.params, path=sp.path, stmts=sp.stmts)
+            scope = [x for st in select_stmts(fn, inner) for x in ast.walk(st)]
+        else:
+            scope = list(ast.walk(fn))
+        hits = [x for x in scope if isinstance(x, ast.expr) and ast.unparse(x) == want]
+        hits.sort(key=lambda x: (x.lineno, x.col_offset))
+        if sp.nth >= len(hits):
+            raise Refuse("expression %r occurs %d times" % (sp.expr, len(hits)))
+        node = hits[sp.nth]
+        if sp.ret == BOOL:       # only the truth value of the expression (an `if` test)
+            node = ast.Call(func=ast.Name(id="bool", ctx=ast.Load()), args=[node], keywords=[])
+            ast.copy_location(node, hits[sp.nth])
+        r = ast.Return(value=node)
+        ast.copy_location(r, hits[sp.nth])
+        ast.fix_missing_locations(r)
+        return [r]
+    body = list(fn.body)
+    for (k, field) in (sp.path or []):
+        body = [x for x in body if not is_docstring(x)]
+        node = body[k]
+        if isinstance(field, tuple):
+            body = list(node.handlers[field[1]].body)
+        else:
+            body = list(getattr(node, field))
+    if sp.stmts is not None or sp.path:
+        body = [x for x in body if not is_docstring(x)]
+    if sp.stmts is not None:
+        body = [body[i] for i in sp.stmts] if isinstance(sp.stmts, list) else body[sp.stmts[0]:sp.stmts[1]]
+    return body
 
 
 # ----------------------------------------------------------------------------- Lean text helpers
@@ -144,7 +224,8 @@ class Res:
 
 class Spec:
     def __init__(self, group, lean, file, qual, params, binds=None, calls=None, stmts=None, result=None,
-                 ret=None, opaque=None, records=None, stores=None, note=""):
+                 ret=None, opaque=None, records=None, stores=None, path=None, expr=None, nth=0, drop=None,
+                 excs=None, reraise=None, nonneg=None, via=None, note=""):
         self.group, self.lean, self.file, self.qual = group, lean, file, qual
         self.params = params              # [(python name, type)]
         self.binds = binds or []          # [(source expression text, lean/python param name, type)]
@@ -153,10 +234,19 @@ class Spec:
         self.result = result              # with a cut: names of the variables returned at the end of the range
         self.ret = ret                    # declared return type (ANY forces the Val coercion), None = inferred
         self.opaque = opaque or {}        # source text of a call -> (parameter name, [arg types], result type, monadic)
+        self.path = path                  # descend into compound statements before `stmts` (see select_stmts)
         self.stores = stores or []        # source text of attributes the function assigns, kept as locals: "self.pni"
         self.records = records or {}      # class name -> {constructor parameter: type}: objects as records
         self.rec_fields = {}              # filled: class name -> [(parameter, type, attribute or None)]
+        self.expr, self.nth = expr, nth   # translate only the nth sub-expression with this source text (`return <expr>`)
+        self.drop = drop or []            # call texts / statement text prefixes to ignore (notify(), queue.append(..))
+        self.excs = excs or {}            # exception class text -> Exc constructor name (module-local classes)
+        self.via = via                    # name of a subclass (same module): `cls.X`/`self.X` constants are read there first
+        self.nonneg = nonneg or []        # parameters/binds declared >= 0 (precondition of the cut, said in the note)
+        self.reraise = reraise or {}      # name of a caught exception variable -> Lean Exc term for `raise <name>`
         self.note = note
+        self.cut = (stmts is not None or bool(path) or expr is not None or result is not None
+                    or any(is_odd_bind(b[0]) for b in self.binds))
         # filled by the translation
         self.defaults = {}                # parameter name -> constant default of the source (filled by translate)
         self.mon = None
@@ -172,6 +262,7 @@ class FnT:
         self.spec, self.module, self.done, self.repo = spec, module, done, repo
         self.counts = {}
         self.tmp = 0
+        self.called = set()
         self.rtys = []
         self.fuel = False
         self.used_names = set()
@@ -190,10 +281,19 @@ class FnT:
 
     # -- source lookup
     def find_def(self):
+        return find_def_node(self.module, self.spec.qual)
+
+    def _find_def_unused(self):
         node = self.module
         for part in self.spec.qual.split("."):
+            want_setter = part.endswith("@setter")
+            part = part[:-7] if want_setter else part
             for n in node.body:
                 if isinstance(n, (ast.ClassDef, ast.FunctionDef)) and n.name == part:
+                    is_setter = isinstance(n, ast.FunctionDef) and any(
+                        ast.unparse(d) == part + ".setter" for d in n.decorator_list)
+                    if is_setter != want_setter:
+                        continue
                     node = n
                     break
             else:
@@ -272,7 +372,8 @@ class FnT:
         return Val(self.rec_build(cname, [a.code for a in args]), REC(cname))
 
     def const_lookup(self, text):
-        """module-level `X = literal`, class-level `Cls.X = literal` and `A, B = range(a, b)`"""
+        """module-level `X = literal`, class-level `Cls.X = literal` (also inherited from a base class of the same
+        module), `A, B = range(a, b)`, `A, B = (lit, lit)`, bytes constants; `nfc.<module>.X` of another file"""
         parts = text.split(".")
         node = self.module
         if parts[0] == "nfc" and len(parts) >= 3:
@@ -285,6 +386,7 @@ class FnT:
                     break
             else:
                 return None
+        top = node
         for part in parts[:-1]:
             for n in node.body:
                 if isinstance(n, ast.ClassDef) and n.name == part:
@@ -292,23 +394,43 @@ class FnT:
                     break
             else:
                 return None
-        name = parts[-1]
+        return self.const_in(top, node, parts[-1], 0)
+
+    def const_in(self, top, node, name, depth):
         found = None
         for n in node.body:
             if isinstance(n, ast.Assign) and len(n.targets) == 1:
                 t = n.targets[0]
                 if isinstance(t, ast.Name) and t.id == name and isinstance(n.value, ast.Constant):
                     found = n.value.value
+                if isinstance(t, ast.Name) and t.id == name and isinstance(n.value, ast.Call) and len(n.value.args) == 1 \
+                        and isinstance(n.value.args[0], ast.Constant) and not n.value.keywords:
+                    f, a = ast.unparse(n.value.func), n.value.args[0].value
+                    if f in ("bytearray", "bytes") and isinstance(a, bytes):
+                        found = a
+                    if f in ("bytearray.fromhex", "bytes.fromhex") and isinstance(a, str):
+                        found = bytes.fromhex(a)
                 if isinstance(t, ast.Name) and t.id == name and isinstance(n.value, ast.UnaryOp) \
                         and isinstance(n.value.op, ast.USub) and isinstance(n.value.operand, ast.Constant):
                     found = -n.value.operand.value
-                if isinstance(t, ast.Tuple) and all(isinstance(e, ast.Name) for e in t.elts) \
-                        and isinstance(n.value, ast.Call) and isinstance(n.value.func, ast.Name) \
-                        and n.value.func.id == "range" and all(isinstance(a, ast.Constant) for a in n.value.args):
+                if isinstance(t, ast.Tuple) and all(isinstance(e, ast.Name) for e in t.elts):
                     names = [e.id for e in t.elts]
-                    vals = list(range(*[a.value for a in n.value.args]))
-                    if name in names and len(names) == len(vals):
+                    vals = None
+                    if isinstance(n.value, ast.Call) and isinstance(n.value.func, ast.Name) \
+                            and n.value.func.id == "range" and all(isinstance(a, ast.Constant) for a in n.value.args):
+                        vals = list(range(*[a.value for a in n.value.args]))
+                    if isinstance(n.value, ast.Tuple) and all(isinstance(a, ast.Constant) for a in n.value.elts):
+                        vals = [a.value for a in n.value.elts]
+                    if vals is not None and name in names and len(names) == len(vals):
                         found = vals[names.index(name)]
+        if found is None and isinstance(node, ast.ClassDef) and depth < 5:
+            for b in node.bases:       # inherited class constant (base class in the same module)
+                if isinstance(b, ast.Name):
+                    for c in top.body:
+                        if isinstance(c, ast.ClassDef) and c.name == b.id:
+                            found = self.const_in(top, c, name, depth + 1)
+                            if found is not None:
+                                return found
         return found
 
     # ------------------------------------------------------------------ expressions
@@ -332,6 +454,11 @@ class FnT:
         raise Refuse("literal %r" % (v,))
 
     def expr(self, n, env, pre):
+        if not isinstance(n, (ast.Name, ast.Attribute, ast.Constant)):
+            text = ast.unparse(n)
+            if text in self.bound_names and text in env:      # a bind on the text of an arbitrary expression
+                v = env[text]
+                return Val(v.lean, v.ty, v.nn)
         m = getattr(self, "e_" + type(n).__name__, None)
         if m is None:
             raise Refuse("expression %s" % type(n).__name__)
@@ -356,12 +483,16 @@ class FnT:
         if text in env:
             v = env[text]
             return Val(v.lean, v.ty, v.nn)
+        if text.startswith("errno.") and text[6:] in ERRNO:
+            return self.lit_val(ERRNO[text[6:]])
         if isinstance(n.value, ast.Name) and n.value.id in env and isinstance(env[n.value.id].ty, tuple) \
                 and env[n.value.id].ty[0] == "rec":
             cname = env[n.value.id].ty[1]
             k = self.rec_field_index(cname, n.attr)
             return Val(self.rec_proj(env[n.value.id].lean, cname, k), RECORDS[cname][k][1])
         c = self.const_lookup(text)
+        if c is None and self.spec.via and (text.startswith("cls.") or text.startswith("self.")):
+            c = self.const_lookup(self.spec.via + "." + text.split(".", 1)[1])
         if c is None and text.startswith("cls."):
             # class constant read through `cls` in a classmethod: the class of the qualified name
             c = self.const_lookup(".".join(self.spec.qual.split(".")[:-1] + [text[4:]]))
@@ -414,6 +545,14 @@ class FnT:
             pre.append(("bind", t, ["PyFn.asInt %s" % x.code]))
             y = Val(t, INT)
             a, b = (y, b) if a.ty == ANY else (a, y)
+        if a.ty == BOOL and b.ty == BOOL and op in ("BitAnd", "BitOr", "BitXor"):
+            f = {"BitAnd": "&&", "BitOr": "||", "BitXor": "!="}[op]      # bool & bool is a bool
+            return Val("(%s %s %s)" % (a.code, f, b.code), BOOL)
+        if BOOL in (a.ty, b.ty) and {a.ty, b.ty} <= {BOOL, INT} and op in (
+                "Add", "Sub", "Mult", "BitAnd", "BitOr", "BitXor", "LShift", "RShift", "FloorDiv", "Mod"):
+            # Python bool is an int
+            a = Val("(if %s = true then 1 else 0)" % a.code, INT, True) if a.ty == BOOL else a
+            b = Val("(if %s = true then 1 else 0)" % b.code, INT, True) if b.ty == BOOL else b
         if a.ty == INT and b.ty == INT:
             if op in ("Add", "Mult"):
                 return Val("(%s %s %s)" % (a.code, "+" if op == "Add" else "*", b.code), INT, a.nn and b.nn)
@@ -456,6 +595,10 @@ class FnT:
         pa, pb = [], []
         a = self.expr(n.body, dict(env_t), pa)
         b = self.expr(n.orelse, dict(env_e), pb)
+        if NONE in (a.ty, b.ty) and a.ty != b.ty:       # `x if c else None` : T | None
+            inner = b.ty if a.ty == NONE else a.ty
+            ty = inner if (isinstance(inner, tuple) and inner[0] == "opt") else OPT(inner)
+            a, b = self.coerce(a, ty, "conditional expression"), self.coerce(b, ty, "conditional expression")
         ty = self.join_type(a.ty, b.ty)
         if isinstance(c, tuple):
             self.no_mutation(pa + pb)
@@ -478,14 +621,56 @@ class FnT:
         return Val(t, ty, a.nn and b.nn)
 
     def e_BoolOp(self, n, env, pre):
-        p = self.cond(n, env, pre)
-        return Val("(decide %s)" % p, BOOL)
+        """`a or b` / `a and b` as a VALUE is one of the operands (not a bool unless both are)"""
+        def boolish(v):
+            if isinstance(v, ast.Compare) or (isinstance(v, ast.UnaryOp) and isinstance(v.op, ast.Not)):
+                return True
+            if isinstance(v, ast.BoolOp):
+                return all(boolish(x) for x in v.values)
+            if isinstance(v, ast.Constant):
+                return isinstance(v.value, bool)
+            if isinstance(v, ast.Call) and ast.unparse(v.func) == "bool":
+                return True
+            if isinstance(v, (ast.Name, ast.Attribute)) and ast.unparse(v) in env:
+                return env[ast.unparse(v)].ty == BOOL
+            return False
+
+        if all(boolish(v) for v in n.values):
+            p = self.cond(n, env, pre)
+            return Val("(decide %s)" % p, BOOL)
+        vals = []
+        for i, v in enumerate(n.values):
+            p = pre if i == 0 else []
+            vals.append(self.expr(v, env, p))
+            if i > 0 and p:
+                raise Refuse("effects in a later operand of a value-level and/or")
+        acc = vals[-1]
+        for a in reversed(vals[:-1]):
+            acc = self.bool_select(a, acc, isinstance(n.op, ast.Or))
+        return acc
+
+    def bool_select(self, a, b, is_or):
+        """value of `a or b` (is_or) / `a and b`"""
+        inner = a.ty[1] if (isinstance(a.ty, tuple) and a.ty[0] == "opt") else a.ty
+        if inner not in (INT, BYTES) or b.ty != inner:
+            raise Refuse("value-level and/or on %s, %s" % (a.ty, b.ty))
+        zero = "0" if inner == INT else "[]"
+        if a.ty == inner:
+            if is_or:
+                return Val("(if %s ≠ %s then %s else %s)" % (a.code, zero, a.code, b.code), inner, a.nn and b.nn)
+            return Val("(if %s ≠ %s then %s else %s)" % (a.code, zero, b.code, a.code), inner, a.nn and b.nn)
+        if is_or:      # Optional first operand: None is falsy
+            return Val("(match %s with | some v => if v ≠ %s then v else %s | none => %s)" % (a.code, zero, b.code, b.code), inner)
+        raise Refuse("`x and y` with an optional x as a value")
 
     def e_Compare(self, n, env, pre):
         p = self.cond(n, env, pre)
         return Val("(decide %s)" % p, BOOL)
 
     def e_Subscript(self, n, env, pre):
+        if ast.unparse(n) in env and ast.unparse(n) in self.bound_names:
+            v = env[ast.unparse(n)]
+            return Val(v.lean, v.ty, v.nn)
         if isinstance(n.slice, ast.Slice):
             s = n.slice
             if s.step is not None:
@@ -550,6 +735,32 @@ class FnT:
         vs = [self.expr(e, env, []) for e in node.elts]
         return "[" + ", ".join(v.code for v in vs) + "]"
 
+    def e_ListComp(self, n, env, pre):
+        if len(n.generators) != 1 or n.generators[0].is_async or not isinstance(n.generators[0].target, ast.Name):
+            raise Refuse("list comprehension shape")
+        g = n.generators[0]
+        it = self.expr(g.iter, env, pre)
+        if it.ty == BYTES:
+            seq, ety, enn = "(PyFn.ints %s)" % it.code, INT, True
+        elif isinstance(it.ty, tuple) and it.ty[0] == "list":
+            seq, ety, enn = it.code, it.ty[1], getattr(it, "elem_nn", False)
+        elif isinstance(it.ty, tuple) and it.ty[0] == "tuple" and all(x == INT for x in it.ty[1:]) and getattr(it, "comps", None):
+            seq, ety, enn = "[" + ", ".join(c.code for c in it.comps) + "]", INT, all(c.nn for c in it.comps)
+        else:
+            raise Refuse("list comprehension over %s" % (it.ty,))
+        x = self.fresh(g.target.id)
+        env2 = dict(env)
+        env2[g.target.id] = Var(x, ety, enn)
+        p2 = []
+        conds = [self.cond(c, env2, p2) for c in g.ifs]
+        el = self.expr(n.elt, env2, p2)
+        if p2:
+            raise Refuse("list comprehension whose element or condition can raise")
+        if conds:
+            seq = "(List.filter (fun (%s : %s) => decide (%s)) %s)" % (x, lean_type(ety), " ∧ ".join(conds), seq)
+        r = Val("(List.map (fun (%s : %s) => %s) %s)" % (x, lean_type(ety), el.code, seq), LIST(el.ty))
+        return r
+
     def e_List(self, n, env, pre):
         vs = [self.expr(e, env, pre) for e in n.elts]
         if not all(v.ty == INT for v in vs):
@@ -558,6 +769,9 @@ class FnT:
 
     # -- calls
     def e_Call(self, n, env, pre):
+        if ast.unparse(n) in env and ast.unparse(n) in self.bound_names:
+            v = env[ast.unparse(n)]
+            return Val(v.lean, v.ty, v.nn)
         if n.keywords:
             raise Refuse("keyword arguments in call %s" % ast.unparse(n.func))
         text = ast.unparse(n.func)
@@ -575,18 +789,52 @@ class FnT:
         if self.rec_class(text) is not None:
             return self.call_ctor(self.rec_class(text), n, env, pre)
         if text in self.spec.calls or (text in self.done and isinstance(n.func, ast.Name)):
-            return self.call_translated(self.spec.calls.get(text, text), n, env, pre)
+            target = self.spec.calls.get(text, text)
+            if isinstance(target, (list, tuple)):
+                # one source function translated once per argument type: the instance whose parameter types fit
+                errs = []
+                for cand in target:
+                    saved = (dict(self.counts), self.tmp, len(pre), dict(env))
+                    try:
+                        return self.call_translated(cand, n, env, pre)
+                    except Refuse as e:
+                        errs.append(str(e))
+                        self.counts, self.tmp = saved[0], saved[1]
+                        del pre[saved[2]:]
+                        env.clear()
+                        env.update(saved[3])
+                raise Refuse("no instance of %s fits: %s" % (text, "; ".join(errs)[:200]))
+            return self.call_translated(target, n, env, pre)
         m = getattr(self, "c_" + text.replace(".", "_"), None)
         if m is not None:
             return m(n, env, pre)
         if isinstance(n.func, ast.Attribute) and n.func.attr in ("pop",) and isinstance(n.func.value, ast.Name):
             return self.call_pop(n, env, pre)
+        if text in ("bytearray.fromhex", "bytes.fromhex") and len(n.args) == 1 and isinstance(n.args[0], ast.Constant) \
+                and isinstance(n.args[0].value, str):
+            return self.lit_val(bytes.fromhex(n.args[0].value))
+        if isinstance(n.func, ast.Attribute) and n.func.attr == "index" and len(n.args) == 1 \
+                and isinstance(n.func.value, ast.Tuple):
+            items = [self.expr(e, env, pre) for e in n.func.value.elts]
+            x = self.expr(n.args[0], env, pre)
+            if x.ty != INT or not all(i.ty == INT for i in items):
+                raise Refuse("index() on a display with non-int elements")
+            t = self.temp()
+            pre.append(("bind", t, ["PyFn.indexOf [%s] %s" % (", ".join(i.code for i in items), x.code)]))
+            return Val(t, INT, True)
+        if isinstance(n.func, ast.Attribute) and n.func.attr == "startswith" and len(n.args) == 1:
+            x = self.expr(n.func.value, env, pre)
+            y = self.expr(n.args[0], env, pre)
+            if x.ty == BYTES and y.ty == BYTES:
+                return Val("(decide (List.isPrefixOf %s %s = true))" % (y.code, x.code), BOOL)
+            raise Refuse("startswith on %s, %s" % (x.ty, y.ty))
         raise Refuse("call of %s" % text)
 
     def call_translated(self, lean, n, env, pre):
         callee = self.done.get(lean)
         if callee is None or callee.refused:
             raise Refuse("callee %s is not translated" % lean)
+        self.called.add(lean)
         args = [self.expr(a, env, pre) for a in n.args]
         if len(args) > len(callee.params):
             raise Refuse("call of %s with %d arguments" % (lean, len(args)))
@@ -613,9 +861,11 @@ class FnT:
         """value v where type ty is expected: T -> T | None is `some`, None -> `none`"""
         if v.ty == ty:
             return v
+        if ty == ANY:
+            return Val(self.coerce_tuple_any(v), ANY)
         if isinstance(ty, tuple) and ty[0] == "opt":
             if v.ty == NONE:
-                return Val("none", ty)
+                return Val("(none : %s)" % lean_type(ty), ty)
             if v.ty == ty[1]:
                 return Val("(some %s)" % v.code, ty)
         raise Refuse("%s has type %s, expected %s" % (what, v.ty, ty))
@@ -730,6 +980,38 @@ class FnT:
         nn = (args[0].nn and args[1].nn) if f == "imin" else (args[0].nn or args[1].nn)
         return Val("(PyFn.%s %s %s)" % (f, args[0].code, args[1].code), INT, nn)
 
+    def c_type(self, n, env, pre):
+        (a,) = n.args
+        v = self.expr(a, env, pre)
+        if isinstance(v.ty, tuple) and v.ty[0] == "opt":
+            raise Refuse("type() of an optional value outside a None test")
+        r = Val("()", NONE)
+        r.type_of = v.ty          # only comparable with a type name
+        return r
+
+    def c_tuple(self, n, env, pre):
+        (a,) = n.args
+        v = self.expr(a, env, pre)
+        if v.ty == BYTES:
+            return Val("(PyFn.ints %s)" % v.code, LIST(INT))     # only comparable (with an int tuple display)
+        raise Refuse("tuple() of %s" % (v.ty,))
+
+    def c_memoryview(self, n, env, pre):
+        (a,) = n.args
+        v = self.expr(a, env, pre)
+        if v.ty != BYTES:
+            raise Refuse("memoryview of %s" % (v.ty,))
+        return v
+
+    def c_sum(self, n, env, pre):
+        (a,) = n.args
+        v = self.expr(a, env, pre)
+        if v.ty == BYTES:
+            return Val("(PyFn.sum (PyFn.ints %s))" % v.code, INT, True)
+        if v.ty == LIST(INT):
+            return Val("(PyFn.sum %s)" % v.code, INT)
+        raise Refuse("sum of %s" % (v.ty,))
+
     def c_min(self, n, env, pre):
         return self.minmax(n, env, pre, "imin")
 
@@ -766,7 +1048,8 @@ class FnT:
             k = int(cnt) if cnt else 1
             if ch == "B":
                 out += [("int", "B")] * k
-            elif ch in "HI":
+            elif ch in "HIL":
+                ch = "I" if ch == "L" else ch
                 if order in (">", "!"):
                     out += [("int", ch + "be")] * k
                 elif order == "<":
@@ -946,7 +1229,31 @@ class FnT:
 
     def cond(self, n, env, pre):
         """-> Lean Prop (decidable) text; hoisted bindings go to pre"""
+        if isinstance(n, (ast.Compare, ast.BoolOp)) and ast.unparse(n) in self.bound_names and ast.unparse(n) in env:
+            return self.truthy(self.expr(n, env, pre))
         if isinstance(n, ast.BoolOp):
+            # `x is not None and <rest>` / `x is None or <rest>` with x optional: <rest> sees x narrowed
+            for i, v in enumerate(n.values[:-1]):
+                if isinstance(v, ast.Compare) and len(v.ops) == 1 and isinstance(v.comparators[0], ast.Constant) \
+                        and v.comparators[0].value is None and isinstance(v.left, (ast.Name, ast.Attribute)) \
+                        and ((isinstance(n.op, ast.And) and isinstance(v.ops[0], ast.IsNot))
+                             or (isinstance(n.op, ast.Or) and isinstance(v.ops[0], ast.Is))):
+                    key = ast.unparse(v.left)
+                    if key in env and isinstance(env[key].ty, tuple) and env[key].ty[0] == "opt":
+                        props = [self.cond(b, env, pre) for b in n.values[:i]]
+                        new = self.fresh(key.split(".")[-1].lstrip("_") or "v")
+                        env2 = dict(env)
+                        env2[key] = Var(new, env[key].ty[1])
+                        after = n.values[i + 1:]
+                        rest_node = after[0] if len(after) == 1 else ast.BoolOp(op=n.op, values=after)
+                        p2 = []
+                        c2 = self.cond(rest_node, env2, p2)
+                        if p2:
+                            raise Refuse("effects behind a None test inside and/or")
+                        none_val = "false" if isinstance(n.op, ast.And) else "true"
+                        props.append("((match %s with | none => %s | some %s => decide %s) = true)"
+                                     % (env[key].lean, none_val, new, c2))
+                        return "(" + (" ∧ " if isinstance(n.op, ast.And) else " ∨ ").join(props) + ")"
             first = self.cond(n.values[0], env, pre)
             props = [first]
             for k, v in enumerate(n.values[1:], 1):
@@ -1009,10 +1316,25 @@ class FnT:
                 else:
                     raise Refuse("`in` on %s" % (s.ty,))
             return (p if opn == "In" else "(¬ %s)" % p), None
+        if opn in ("Is", "IsNot", "Eq", "NotEq") and isinstance(rn, ast.Name) and rn.id in ("int", "bytes", "bytearray", "str", "bool", "tuple") \
+                and getattr(a, "type_of", None) is not None:
+            # `type(x) is int`: decided from the declared type of x
+            t = a.type_of
+            same = {"int": t == INT, "bool": t == BOOL, "str": t == STR, "tuple": isinstance(t, tuple) and t[0] == "tuple",
+                    "bytes": False, "bytearray": t == BYTES}[rn.id]
+            if rn.id == "bytes" and t == BYTES:
+                raise Refuse("type(x) is bytes on a value that may be bytes or bytearray")
+            pos = opn in ("Is", "Eq")
+            return ("True" if same == pos else "False"), None
         b = self.expr(rn, env, pre)
         return self.compare_vals(a, opn, b), b
 
     def compare_vals(self, a, opn, b):
+        if opn in ("Is", "IsNot") and b.ty == BOOL and isinstance(b.lit, bool):
+            if a.ty == BOOL:
+                p = "(%s = %s)" % (a.code, "true" if b.lit else "false")
+                return p if opn == "Is" else "(¬ %s)" % p
+            return "False" if opn == "Is" else "True"      # no other declared type is the object True/False
         if opn in ("Is", "IsNot"):
             if b.ty != NONE:
                 raise Refuse("`is` with something other than None")
@@ -1023,6 +1345,11 @@ class FnT:
             # a value whose declared type excludes None
             return "False" if opn == "Is" else "True"
         sym = {"Eq": "=", "NotEq": "≠", "Lt": "<", "LtE": "≤", "Gt": ">", "GtE": "≥"}[opn]
+        if opn in ("Eq", "NotEq") and {a.ty, b.ty} != {LIST(INT)} and LIST(INT) in (a.ty, b.ty):
+            l, t = (a, b) if a.ty == LIST(INT) else (b, a)
+            if isinstance(t.ty, tuple) and t.ty[0] == "tuple" and all(x == INT for x in t.ty[1:]):
+                comps = [self.comp(t, i).code for i in range(len(t.ty) - 1)]
+                return "(%s %s [%s])" % (l.code, sym, ", ".join(comps))
         if isinstance(a.ty, tuple) and a.ty[0] == "opt" and b.ty == a.ty[1] and opn in ("Eq", "NotEq"):
             return "(%s %s some %s)" % (a.code, sym, b.code)
         if a.ty != b.ty:
@@ -1076,10 +1403,46 @@ class FnT:
         if not stmts:
             return k(env)
         s, rest = stmts[0], stmts[1:]
+        if self.spec.drop and not isinstance(s, ast.Expr) and self.is_dropped(s):
+            if not isinstance(s, (ast.Assign, ast.AugAssign)):
+                raise Refuse("dropped statement of kind %s (line %d)" % (type(s).__name__, s.lineno))
+            return self.block(rest, env, k)      # its targets stay unbound: any later read refuses
         m = getattr(self, "s_" + type(s).__name__, None)
         if m is None:
             raise Refuse("statement %s (line %d)" % (type(s).__name__, s.lineno))
         return m(s, rest, env, k)
+
+    def s_With(self, s, rest, env, k):
+        """`with <lock>:` (no `as`): the block itself; the context expression must be a plain name/attribute chain"""
+        for it in s.items:
+            if it.optional_vars is not None:
+                raise Refuse("with .. as (line %d)" % s.lineno)
+            x = it.context_expr
+            while isinstance(x, ast.Attribute):
+                x = x.value
+            if not isinstance(x, ast.Name):
+                raise Refuse("with on %s (line %d)" % (ast.unparse(it.context_expr)[:30], s.lineno))
+        return self.block(list(s.body) + rest, env, k)
+
+    def s_Delete(self, s, rest, env, k):
+        """`del x[a:b]` on a local bytearray"""
+        env = dict(env)
+        pre = []
+        for t in s.targets:
+            if not (isinstance(t, ast.Subscript) and isinstance(t.slice, ast.Slice) and t.slice.step is None
+                    and isinstance(t.value, ast.Name) and t.value.id in env and env[t.value.id].ty == BYTES):
+                raise Refuse("del %s (line %d)" % (ast.unparse(t)[:30], s.lineno))
+            name = t.value.id
+            if name in self.aliased:
+                raise Refuse("mutation of %s which may be aliased" % name)
+            lo = self.expr(t.slice.lower, env, pre) if t.slice.lower is not None else self.lit_val(0)
+            hi = self.expr(t.slice.upper, env, pre) if t.slice.upper is not None else Val("(PyFn.len %s)" % env[name].lean, INT)
+            if lo.ty != INT or hi.ty != INT:
+                raise Refuse("del with non-int bounds")
+            new = self.fresh(name)
+            pre.append(("let", new, ["PyFn.delSlice %s %s %s" % (env[name].lean, lo.code, hi.code)]))
+            env[name] = Var(new, BYTES)
+        return self.wrap_pre(pre, self.block(rest, env, k))
 
     def s_Pass(self, s, rest, env, k):
         return self.block(rest, env, k)
@@ -1095,6 +1458,37 @@ class FnT:
                 return True
         return False
 
+    def is_dropped(self, stmt):
+        text = ast.unparse(stmt)
+        if isinstance(stmt, ast.Expr) and isinstance(stmt.value, ast.Call) and ast.unparse(stmt.value.func) in self.spec.drop:
+            return True
+        return any(text.startswith(d) for d in self.spec.drop)
+
+    def log_effects(self, nodes, env, pre, what):
+        """arguments of a dropped call are evaluated by Python: index expressions in them are translated for the
+        exception they may raise (value discarded), formatting itself is not modelled; starred arguments refuse"""
+        for a in nodes:
+            if isinstance(a, ast.Starred):
+                raise Refuse("starred argument in %s (line %d)" % (what, a.lineno))
+            for x in ast.walk(a):
+                if isinstance(x, ast.Starred):
+                    raise Refuse("starred argument in %s (line %d)" % (what, x.lineno))
+            subs = [x for x in ast.walk(a) if isinstance(x, ast.Subscript) and not isinstance(x.slice, ast.Slice)]
+            for x in subs:
+                self.expr(x, env, pre)
+            stripped = [a]
+            self.check_inert_calls(stripped, what)
+
+    def check_inert_calls(self, nodes, what):
+        for a in nodes:
+            for x in ast.walk(a):
+                if isinstance(x, ast.Call):
+                    f = ast.unparse(x.func)
+                    if not (f in ("hexlify", "str", "repr", "len", "hex", "format", "binascii.hexlify", "bytes", "os.strerror",
+                                  "bytearray", "tuple", "list", "int", "type") or f.endswith(".format") or f.endswith(".decode")
+                            or f.endswith(".join")):
+                        raise Refuse("call of %s inside %s (line %d)" % (f, what, x.lineno))
+
     def check_inert(self, nodes, what):
         """arguments of dropped calls (logging, exception constructors) must not be able to raise"""
         for a in nodes:
@@ -1103,7 +1497,7 @@ class FnT:
                     raise Refuse("index expression inside %s (line %d)" % (what, x.lineno))
                 if isinstance(x, ast.Call):
                     f = ast.unparse(x.func)
-                    if not (f in ("hexlify", "str", "repr", "len", "hex", "format", "binascii.hexlify", "bytes",
+                    if not (f in ("hexlify", "str", "repr", "len", "hex", "format", "binascii.hexlify", "bytes", "os.strerror",
                                   "bytearray", "tuple", "list", "int") or f.endswith(".format") or f.endswith(".decode")
                             or f.endswith(".join")):
                         raise Refuse("call of %s inside %s (line %d)" % (f, what, x.lineno))
@@ -1113,8 +1507,18 @@ class FnT:
         if isinstance(e, ast.Constant):      # docstring
             return self.block(rest, env, k)
         if self.is_log_call(e):
-            self.check_inert(e.args, "a logging call")
+            pre = []
+            self.log_effects(e.args, dict(env), pre, "a logging call")
+            return self.wrap_pre(pre, self.block(rest, env, k))
+        if self.is_dropped(s):
+            self.check_inert(e.args if isinstance(e, ast.Call) else [], "a dropped call")
             return self.block(rest, env, k)
+        if isinstance(e, ast.Call) and (ast.unparse(e.func) in self.spec.calls
+                                        or (isinstance(e.func, ast.Name) and e.func.id in self.done)):
+            pre = []
+            env = dict(env)
+            self.expr(e, env, pre)         # evaluated for its exception, the value is discarded
+            return self.wrap_pre(pre, self.block(rest, env, k))
         if isinstance(e, ast.Call) and isinstance(e.func, ast.Attribute) and isinstance(e.func.value, ast.Name) \
                 and e.func.value.id in env and env[e.func.value.id].ty == BYTES:
             name, meth = e.func.value.id, e.func.attr
@@ -1147,6 +1551,19 @@ class FnT:
                 return self.wrap_pre(pre, self.block(rest, env, k))
         raise Refuse("expression statement %s (line %d)" % (ast.unparse(e)[:40], s.lineno))
 
+    @staticmethod
+    def is_message_string(v):
+        if isinstance(v, ast.BinOp) and isinstance(v.op, ast.Mod) and isinstance(v.left, ast.Constant) \
+                and isinstance(v.left.value, str):
+            return True
+        if isinstance(v, ast.Call) and isinstance(v.func, ast.Attribute) and v.func.attr == "format" \
+                and isinstance(v.func.value, ast.Constant) and isinstance(v.func.value.value, str):
+            return True
+        if isinstance(v, ast.BinOp) and isinstance(v.op, ast.Add):
+            return FnT.is_message_string(v.left) or FnT.is_message_string(v.right) or any(
+                isinstance(x, ast.Constant) and isinstance(x.value, str) for x in (v.left, v.right))
+        return False
+
     def bind_target(self, target, v, env, pre):
         """assign compiled value v to an assignment target; returns nothing, updates env/pre"""
         if isinstance(target, ast.Attribute) and ast.unparse(target) in self.spec.stores:
@@ -1163,7 +1580,9 @@ class FnT:
             if target.id in self.bound_names:
                 raise Refuse("assignment to the bound name %s" % target.id)
             new = self.fresh(target.id)
-            pre.append(("let", new, [v.code]))
+            # a bare numeral would elaborate as Nat: say the type
+            pat = "%s : Int" % new if (v.ty == INT and re.fullmatch(r"\(?-?\d+\)?", v.code)) else new
+            pre.append(("let", pat, [v.code]))
             env[target.id] = Var(new, v.ty, v.nn)
             return
         if isinstance(target, (ast.Tuple, ast.List)):
@@ -1223,9 +1642,25 @@ class FnT:
     def s_Assign(self, s, rest, env, k):
         if len(s.targets) != 1:
             raise Refuse("chained assignment (line %d)" % s.lineno)
+        if isinstance(s.value, ast.IfExp) and any(
+                isinstance(x, ast.Call) and isinstance(x.func, ast.Attribute) and x.func.attr in ("pop", "append", "extend")
+                for x in ast.walk(s.value)):
+            # `t = <mutating expr> if c else <expr>`  ==  `if c: t = .. else: t = ..`
+            a1 = ast.Assign(targets=s.targets, value=s.value.body)
+            a2 = ast.Assign(targets=s.targets, value=s.value.orelse)
+            new = ast.If(test=s.value.test, body=[a1], orelse=[a2])
+            for x in (a1, a2, new):
+                ast.copy_location(x, s)
+            ast.fix_missing_locations(new)
+            return self.s_If(new, rest, env, k)
         env = dict(env)
         pre = []
         tgt = s.targets[0]
+        if isinstance(tgt, ast.Name) and self.is_message_string(s.value):
+            # a message text for logging / an exception: not bound (a later read outside such a context refuses)
+            self.log_effects([s.value], env, pre, "a message string")
+            env.pop(tgt.id, None)
+            return self.wrap_pre(pre, self.block(rest, env, k))
         if isinstance(tgt, ast.Tuple) and isinstance(s.value, ast.Tuple) and len(tgt.elts) == len(s.value.elts) \
                 and all(isinstance(e, ast.Name) for e in tgt.elts):
             # `a, b = x, y`: evaluate all right-hand sides first
@@ -1243,6 +1678,12 @@ class FnT:
         return self.wrap_pre(pre, self.block(rest, env, k))
 
     def s_AugAssign(self, s, rest, env, k):
+        if isinstance(s.target, ast.Attribute) and ast.unparse(s.target) in self.spec.stores:
+            load = ast.parse(ast.unparse(s.target), mode="eval").body
+            new = ast.Assign(targets=[s.target], value=ast.BinOp(left=load, op=s.op, right=s.value))
+            ast.copy_location(new, s)
+            ast.fix_missing_locations(new)
+            return self.s_Assign(new, rest, env, k)
         if not isinstance(s.target, ast.Name):
             raise Refuse("augmented assignment target (line %d)" % s.lineno)
         name = s.target.id
@@ -1276,6 +1717,9 @@ class FnT:
         if want == ANY:
             self.rtys.append(ANY)
             return self.coerce_any(v)
+        if isinstance(want, tuple) and want[0] == "opt":
+            self.rtys.append(want)
+            return self.coerce(v, want, "return value").code
         if isinstance(want, tuple) and want[0] == "tuple" and ANY in want[1:]:
             if not (isinstance(v.ty, tuple) and v.ty[0] == "tuple" and len(v.ty) == len(want)):
                 raise Refuse("return value %s does not fit %s" % (v.ty, want))
@@ -1289,6 +1733,11 @@ class FnT:
                     if cv.ty != w:
                         raise Refuse("return component %d has type %s, declared %s" % (i, cv.ty, w))
                     comps.append(cv.code)
+            return "(" + ", ".join(comps) + ")"
+        if v.ty != want and isinstance(want, tuple) and want[0] == "tuple" and isinstance(v.ty, tuple) \
+                and v.ty[0] == "tuple" and len(v.ty) == len(want):
+            comps = [self.coerce(self.comp(v, i), w, "return component %d" % i).code for i, w in enumerate(want[1:])]
+            self.rtys.append(want)
             return "(" + ", ".join(comps) + ")"
         if v.ty != want:
             raise Refuse("return value of type %s, declared %s" % (v.ty, want))
@@ -1304,6 +1753,11 @@ class FnT:
     def s_Return(self, s, rest, env, k):
         if self.loops and self.loops[-1] is None:
             raise Refuse("return inside a loop (line %d)" % s.lineno)
+        if self.spec.result is not None and self.spec.ret is None \
+                and (s.value is None or (isinstance(s.value, ast.Constant) and s.value.value is None)):
+            if self.loops:
+                raise Refuse("return inside a loop of a result= cut (line %d)" % s.lineno)
+            return self.k_end(env)      # a bare `return` inside a `result=` cut: the result variables as they are now
         pre = []
         env = dict(env)
         v = self.expr(s.value, env, pre) if s.value is not None else self.lit_val(None)
@@ -1369,6 +1823,47 @@ class FnT:
             if e.ty != INT:
                 raise Refuse("errno of type %s" % (e.ty,))
             return "(Exc.tagCmd %s)" % e.code
+        ftext = ast.unparse(fnode)
+        if isinstance(node, ast.Name) and node.id in self.spec.reraise:
+            return self.spec.reraise[node.id]       # `raise error` of a caught exception: spec says what it is
+        if ftext in self.spec.excs and env is not None:
+            ctor = self.spec.excs[ftext]
+            init_fn = None
+            if isinstance(ctor, tuple):
+                ctor, init_fn = ctor
+            cdef = [c for c in self.module.body if isinstance(c, ast.ClassDef) and c.name == ftext]
+            cinit = [f for f in (cdef[0].body if cdef else []) if isinstance(f, ast.FunctionDef) and f.name == "__init__"]
+            plain = all(isinstance(st, ast.Assign) and len(st.targets) == 1 and isinstance(st.targets[0], ast.Attribute)
+                        and isinstance(st.value, (ast.Name, ast.Constant)) for st in (cinit[0].body if cinit else []))
+            if cinit and not plain and init_fn is None:
+                raise Refuse("%s.__init__ computes: name its translation in excs as (ctor, lean function)" % ftext)
+            if init_fn is not None:
+                call = ast.Call(func=ast.Name(id=init_fn, ctx=ast.Load()), args=list(args), keywords=[])
+                ast.copy_location(call, node)
+                ast.fix_missing_locations(call)
+                self.call_translated(init_fn, call, env, pre)      # evaluated for the exception it may raise
+                return "Exc." + ctor
+            if ctor in ("chipsetError", "io", "llcp", "tagCmd"):
+                if not args:
+                    raise Refuse("%s without errno" % ftext)
+                e = self.expr(args[0], env, pre)
+                if e.ty != INT:
+                    raise Refuse("errno of type %s" % (e.ty,))
+                self.log_effects(args[1:], env, pre, "an exception constructor")
+                if ctor == "tagCmd":
+                    return "(Exc.tagCmd %s)" % e.code
+                return "(Exc.%s %s)" % (ctor, str(e.lit) if (e.lit is not None and e.lit >= 0) else "(%s).toNat" % e.code)
+            self.log_effects(args, env, pre, "an exception constructor")
+            return "Exc." + ctor
+        if (ftext in IO_ERROR_CLASSES or ftext in LLCP_ERROR_CLASSES) and env is not None and args:
+            e = self.expr(args[0], env, pre)
+            if e.ty != INT:
+                raise Refuse("errno of type %s" % (e.ty,))
+            self.check_inert(args[1:], "an exception constructor")
+            ctor = "io" if ftext in IO_ERROR_CLASSES else "llcp"
+            if e.lit is not None and e.lit >= 0:
+                return "(Exc.%s %d)" % (ctor, e.lit)
+            return "(Exc.%s (%s).toNat)" % (ctor, e.code)
         self.check_inert(args, "an exception constructor")
         if name in EXC_MAP:
             return "Exc" + EXC_MAP[name]
@@ -1433,6 +1928,9 @@ class FnT:
                     tgt(x.target)
                 elif isinstance(x, ast.For):
                     tgt(x.target)
+                elif isinstance(x, ast.Delete):
+                    for t in x.targets:
+                        tgt(t)
                 elif isinstance(x, ast.Call) and isinstance(x.func, ast.Attribute) \
                         and x.func.attr in ("pop", "extend", "append") and isinstance(x.func.value, ast.Name):
                     add(x.func.value.id)
@@ -1450,7 +1948,7 @@ class FnT:
         env = dict(env)
         pats = []
         for n in names:
-            new = self.fresh(n)
+            new = self.fresh(n.split(".")[-1].lstrip("_") or "v")
             env[n] = Var(new, env[n].ty, False)
             pats.append(new)
         pat = "()" if not pats else pats[0] if len(pats) == 1 else "(" + ", ".join(pats) + ")"
@@ -1480,6 +1978,10 @@ class FnT:
         env = dict(env)
         c, env_t, env_e = self.test(s.test, env, pre)
         tb, eb = s.body, s.orelse
+        if c == "False" and not pre:       # statically decided (type tests): the dead branch is not translated
+            return self.block(list(eb) + rest, env, k)
+        if c == "True" and not pre:
+            return self.block(list(tb) + rest, env, k)
         if not pre and self.is_noop(tb, env) and self.is_noop(eb, env):
             return self.block(rest, env, k)     # only dropped statements (logging) under a condition without effects
         if self.terminates(tb):
@@ -1518,7 +2020,12 @@ class FnT:
             if isinstance(x, ast.Pass) or (isinstance(x, ast.Expr) and isinstance(x.value, ast.Constant)):
                 continue
             if isinstance(x, ast.Expr) and self.is_log_call(x.value):
-                self.check_inert(x.value.args, "a logging call")
+                saved = (dict(self.counts), self.tmp)
+                p = []
+                self.log_effects(x.value.args, dict(env), p, "a logging call")
+                self.counts, self.tmp = saved
+                if p:
+                    return False
                 continue
             if isinstance(x, ast.If):
                 saved = (dict(self.counts), self.tmp)
@@ -1546,28 +2053,61 @@ class FnT:
                 env_some[key] = Var(new, env[key].ty[1])
                 c = ("match", env[key].lean, new, isinstance(node.ops[0], ast.Is))
                 return (c, dict(env), env_some) if isinstance(node.ops[0], ast.Is) else (c, env_some, dict(env))
+        if isinstance(node, (ast.Name, ast.Attribute)):
+            key = ast.unparse(node)
+            if key in env and isinstance(env[key].ty, tuple) and env[key].ty[0] == "opt" and env[key].ty[1] in (INT, BYTES):
+                # `if x:` on an optional: None and the empty/zero value are false; x is narrowed in the true branch
+                new = self.fresh(key.split(".")[-1].lstrip("_") or "v")
+                env_some = dict(env)
+                env_some[key] = Var(new, env[key].ty[1])
+                zero = "0" if env[key].ty[1] == INT else "[]"
+                return ("truthy", env[key].lean, new, "(%s ≠ %s)" % (new, zero)), env_some, dict(env)
         c = self.cond(node, env, pre)
         return c, env, env
 
-    def if_join(self, c, tb, eb, names, only_one, rest, env, k, env_t=None, env_e=None):
+    def if_join(self, c, tb, eb, names, only_one, rest, env, k, env_t=None, env_e=None, want=None):
         envs = []
+        want = want or {}
 
         def kj(e):
             envs.append(e)
             for n in names:
                 if n not in e:
                     raise JoinMismatch()
-            return Res([self.state_tuple(names, e)], False)
+            if not want:
+                return Res([self.state_tuple(names, e)], False)
+            comps = [self.coerce(Val(e[n].lean, e[n].ty), want.get(n, e[n].ty), "join of " + n).code for n in names]
+            return Res([comps[0] if len(comps) == 1 else "(" + ", ".join(comps) + ")"], False)
 
+        saved = (dict(self.counts), self.tmp, len(self.rtys))
         a = self.block(tb, env if env_t is None else env_t, kj)
         b = self.block(eb, env if env_e is None else env_e, kj)
-        ea, eb_ = envs[0], envs[1]
+        ea = envs[0]
+        jty = {}
         for n in names:
-            if any(e[n].ty != ea[n].ty for e in envs):
-                raise JoinMismatch()
+            tys = []
+            for e in envs:
+                if e[n].ty not in tys:
+                    tys.append(e[n].ty)
+            if n in want:
+                jty[n] = want[n]
+            elif len(tys) == 1:
+                jty[n] = tys[0]
+            else:
+                # None joined with T (or T | None) is T | None; anything else does not join
+                inner = [t for t in tys if t != NONE and not (isinstance(t, tuple) and t[0] == "opt")]
+                opts = [t for t in tys if isinstance(t, tuple) and t[0] == "opt"]
+                cand = opts[0] if opts else (OPT(inner[0]) if inner else None)
+                if cand is None or any(t != cand[1] for t in inner) or any(t != cand for t in opts):
+                    raise JoinMismatch()
+                jty[n] = cand
+        if not want and any(jty[n] != e[n].ty for n in names for e in envs):
+            self.counts, self.tmp = saved[0], saved[1]
+            del self.rtys[saved[2]:]
+            return self.if_join(c, tb, eb, names, only_one, rest, env, k, env_t, env_e, want=jty)
         env2 = dict(env)
         for n in names:
-            env2[n] = Var(ea[n].lean, ea[n].ty)
+            env2[n] = Var(ea[n].lean, jty[n])
         pat, env2 = self.rebind_state(names, env2)
         for n in names:
             env2[n].nn = all(e[n].nn for e in envs)
@@ -1587,6 +2127,10 @@ class FnT:
         mon = a.mon or b.mon
         al = a.lifted() if mon else a.lines
         bl = b.lifted() if mon else b.lines
+        if isinstance(c, tuple) and c[0] == "truthy":
+            _, var, new, prop = c
+            inner = ["if %s then" % prop] + indent(paren(al)) + ["else"] + indent(paren(bl))
+            return Res(["match %s with" % var, "| none =>"] + indent(paren(bl)) + ["| some %s =>" % new] + indent(paren(inner)), mon)
         if isinstance(c, tuple):      # ("match", optional variable, name bound in the `some` case, then-is-none)
             _, var, new, then_none = c
             nl, sl = (al, bl) if then_none else (bl, al)
@@ -1602,6 +2146,20 @@ class FnT:
     def s_For(self, s, rest, env, k):
         if s.orelse:
             raise Refuse("for/else (line %d)" % s.lineno)
+        if isinstance(s.iter, ast.Call) and ast.unparse(s.iter.func) == "enumerate" and len(s.iter.args) == 1 \
+                and isinstance(s.iter.args[0], ast.Name) and isinstance(s.target, ast.Tuple) and len(s.target.elts) == 2 \
+                and all(isinstance(e, ast.Name) for e in s.target.elts) \
+                and s.iter.args[0].id in env and env[s.iter.args[0].id].ty == BYTES \
+                and s.iter.args[0].id not in self.assigned(s.body):
+            # `for i, x in enumerate(data)` over a byte string that the body does not change
+            #   ==  `for i in range(len(data)): x = data[i]; ..`
+            d = s.iter.args[0].id
+            new = ast.parse("for %s in range(len(%s)):\n    %s = %s[%s]" % (
+                s.target.elts[0].id, d, s.target.elts[1].id, d, s.target.elts[0].id)).body[0]
+            new.body = new.body + list(s.body)
+            ast.copy_location(new, s)
+            ast.fix_missing_locations(new)
+            return self.s_For(new, rest, env, k)
         ctl = self.has_return(s.body)
         returns = any(isinstance(x, ast.Return) for st in s.body for x in ast.walk(st))
         pre = []
@@ -1611,6 +2169,8 @@ class FnT:
             seq, ety, enn = "(PyFn.ints %s)" % it.code, INT, True
         elif it.ty == LIST(INT):
             seq, ety, enn = it.code, INT, getattr(it, "elem_nn", False)
+        elif isinstance(it.ty, tuple) and it.ty[0] == "list":
+            seq, ety, enn = it.code, it.ty[1], False
         else:
             raise Refuse("for over %s (line %d)" % (it.ty, s.lineno))
         if not isinstance(s.target, ast.Name):
@@ -1620,6 +2180,24 @@ class FnT:
             raise Refuse("loop variable reassigned in the body (line %d)" % s.lineno)
         state = [n for n in body_assigned if n in env]
         local = [n for n in body_assigned if n not in env]
+        # the loop variable is read behind the loop: carried in the state; only for `range(a, b)` with literal
+        # bounds a < b, so that it is certainly bound (its initial value is overwritten by the first iteration)
+        used_after = s.target.id in (self.spec.result or []) or any(
+            isinstance(x, ast.Name) and x.id == s.target.id and isinstance(x.ctx, ast.Load)
+            for st in rest for x in ast.walk(st))
+        keep_var = False
+        if used_after and s.target.id not in state:
+            it_n = s.iter
+            lits = [a.value for a in it_n.args if isinstance(a, ast.Constant) and isinstance(a.value, int)] \
+                if (isinstance(it_n, ast.Call) and ast.unparse(it_n.func) == "range" and not it_n.keywords) else []
+            if len(lits) != len(getattr(it_n, "args", [None])) or len(lits) not in (1, 2):
+                raise Refuse("loop variable %s read behind a loop that is not over a literal range (line %d)" % (s.target.id, s.lineno))
+            lo, hi = (0, lits[0]) if len(lits) == 1 else lits
+            if not lo < hi:
+                raise Refuse("loop variable %s read behind a possibly empty loop (line %d)" % (s.target.id, s.lineno))
+            env[s.target.id] = Var(str(lo) if lo >= 0 else "(%d)" % lo, INT, lo >= 0)
+            state = state + [s.target.id]
+            keep_var = True
         init = self.state_tuple(state, env)
         pat, benv = self.rebind_state(state, env)
         x = self.fresh(s.target.id)
@@ -1641,7 +2219,7 @@ class FnT:
         bl0 = body.lifted() if ctl else body.lines
         blines = bl0 if len(state) <= 1 else ["match st with", "| %s =>" % pat] + indent(bl0)
         pat2, env2 = self.rebind_state(state, env)
-        for n in local + [s.target.id]:      # loop-local names may be unbound after the loop
+        for n in local + ([] if keep_var else [s.target.id]):      # loop-local names may be unbound after the loop
             env2.pop(n, None)
         r = self.block(rest, env2, k)
         if ctl:
@@ -1726,7 +2304,10 @@ class FnT:
               and not (isinstance(x, ast.Expr) and self.is_log_call(x.value))]
         if len(hb) != 1 or not isinstance(hb[0], ast.Raise) or hb[0].exc is None:
             raise Refuse("except handler that is not a single raise (line %d)" % s.lineno)
-        new_exc = self.exc_of(hb[0].exc)
+        hpre = []
+        new_exc = self.exc_of(hb[0].exc, dict(env), hpre)
+        if hpre:
+            raise Refuse("effects in the exception of an except handler (line %d)" % s.lineno)
         catches = "(fun e => %s)" % " || ".join("e == %s" % c for c in caught)
         if self.has_return(s.body) or self.terminates(s.body):
             # returns inside the try: allowed when nothing follows the try statement
@@ -1767,24 +2348,21 @@ class FnT:
         self.setup_records()
         fn = self.find_def()
         sp.lines = (fn.lineno, fn.end_lineno)
-        body = fn.body
-        if sp.stmts is not None:
-            body = [x for x in body if not (isinstance(x, ast.Expr) and isinstance(x.value, ast.Constant))]
-            body = [body[i] for i in sp.stmts] if isinstance(sp.stmts, list) else body[sp.stmts[0]:sp.stmts[1]]
-            if body:
-                sp.lines = (body[0].lineno, body[-1].end_lineno)
+        body = select_stmts(fn, sp)
+        if sp.cut and body:
+            sp.lines = (body[0].lineno, body[-1].end_lineno)
         # parameters: declared ones must be the function's own (minus self/cls), in order
         argnames = [a.arg for a in fn.args.args if a.arg not in ("self", "cls")]
-        if fn.args.vararg or fn.args.kwarg or fn.args.kwonlyargs:
+        if (fn.args.vararg or fn.args.kwarg or fn.args.kwonlyargs) and not sp.cut:
             raise Refuse("*args/**kwargs")
         declared = [p for p, _ in sp.params]
         sp.defaults = {}
         for a, d in zip(reversed(fn.args.args), reversed(fn.args.defaults)):
             if isinstance(d, ast.Constant):
                 sp.defaults[a.arg] = d.value
-        if sp.stmts is None and declared != argnames[:len(declared)]:
+        if not sp.cut and declared != argnames[:len(declared)]:
             raise Refuse("parameters %s do not match the source %s" % (declared, argnames))
-        if sp.stmts is None and len(declared) < len(argnames):
+        if not sp.cut and len(declared) < len(argnames):
             # remaining parameters must have defaults that the spec pins
             raise Refuse("parameters %s of the source are not declared" % argnames[len(declared):])
         env = {}
@@ -1792,12 +2370,12 @@ class FnT:
         self.bound_names = set()
         for p, t in sp.params:
             ln = self.fresh(p)
-            env[p] = Var(ln, t)
+            env[p] = Var(ln, t, p in sp.nonneg)
             sig.append("(%s : %s)" % (ln, lean_type(t)))
         for (src, p, t) in sp.binds:
             ln = self.fresh(p)
-            env[src] = Var(ln, t)
-            env[p] = Var(ln, t) if p not in env else env[p]
+            env[src] = Var(ln, t, p in sp.nonneg)
+            env[p] = Var(ln, t, p in sp.nonneg) if p not in env else env[p]
             self.bound_names.add(src)
             sig.append("(%s : %s)" % (ln, lean_type(t)))
         for text, (pname, atys, rty, mon) in sorted(sp.opaque.items()):
@@ -1807,13 +2385,16 @@ class FnT:
             sig.append("(%s : %s)" % (ln, fty))
         # aliasing: a bytearray that is bound to another name or stored in a display is never mutated
         self.aliased = set()
-        for x in ast.walk(fn):
+        scope = [x for st in body for x in ast.walk(st)]       # only the translated statements
+        returned = {id(x.value) for x in scope if isinstance(x, ast.Return) and x.value is not None}
+        for x in scope:
             if isinstance(x, ast.Assign) and isinstance(x.value, ast.Name):
                 self.aliased.add(x.value.id)
                 for t in x.targets:
                     if isinstance(t, ast.Name):
                         self.aliased.add(t.id)
-            if isinstance(x, (ast.Tuple, ast.List)) and isinstance(getattr(x, "ctx", None), ast.Load):
+            if isinstance(x, (ast.Tuple, ast.List)) and isinstance(getattr(x, "ctx", None), ast.Load) \
+                    and id(x) not in returned:       # a display that is returned at once cannot be mutated later
                 for e in x.elts:
                     if isinstance(e, ast.Name):
                         self.aliased.add(e.id)
@@ -1833,11 +2414,14 @@ class FnT:
                 return Res([self.ret_value(v)], False)
             return Res([self.ret_value(self.lit_val(None))], False)
 
+        self.k_end = k_end
         res = self.block(body, env, k_end)
         rtys = []
         for t in self.rtys:
             if t not in rtys:
                 rtys.append(t)
+        if not rtys:
+            rtys = [NONE]        # every path raises
         if len(rtys) != 1:
             raise Refuse("return statements of different types %s" % (rtys,))
         sp.rty, sp.mon, sp.fuel = rtys[0], res.mon, self.fuel
@@ -1923,6 +2507,7 @@ def translate_all(repo, specs=None):
             sp.refused = "translator error: %s %s" % (type(e).__name__, e)
             lines = ['def %s : PyFn.Unsupported := .mk "%s"' % (sp.lean, sanitize(sp.refused))]
         done[sp.lean] = sp
+        sp.uses_groups = sorted({done[c].group for c in t.called if c in done and done[c].group != sp.group})
         doc = "/-- `%s` (nfc/%s), lines %d-%d%s -/" % (sp.qual, sp.file, sp.lines[0], sp.lines[1],
                                                       "; " + sp.note if sp.note else "")
         groups.setdefault(sp.group, []).extend([doc] + lines + [""])
@@ -1936,9 +2521,10 @@ def emit(repo, out_dir, specs=None, only=None):
     for g, lines in groups.items():
         if only is not None and g not in only:
             continue
+        deps = sorted({d for sp in specs if sp.group == g for d in getattr(sp, "uses_groups", [])})
         text = "\n".join(
-            ["import NfcVerif.PyFn",
-             "/-! GENERATED by harness/translate_fn.py from /repo/src/nfc - do not edit. -/",
+            ["import NfcVerif.PyFn"] + ["import NfcVerif.Gen.Fn%s" % d for d in deps] +
+            ["/-! GENERATED by harness/translate_fn.py from /repo/src/nfc - do not edit. -/",
              "set_option linter.unusedVariables false",
              "namespace NfcVerif.Gen.Fn", "open NfcVerif", ""] + lines + ["end NfcVerif.Gen.Fn", ""])
         path = os.path.join(out_dir, "Fn%s.lean" % g)
@@ -2000,6 +2586,10 @@ def parse_code(t):
         return "pStr"
     if t == SET:
         return "pSet"
+    if t == LIST(INT):
+        return "pSet"
+    if isinstance(t, tuple) and t[0] == "list":
+        return "(pListOf %s)" % parse_code(t[1])
     if isinstance(t, tuple) and t[0] == "opt" and t[1] in (INT, BYTES):
         return "(pOpt %s)" % parse_code(t[1])
     if isinstance(t, tuple) and t[0] == "tuple":
@@ -2026,6 +2616,8 @@ def pBool (s : String) : Option Bool := if s = "1" then some true else if s = "0
 def pStr (s : String) : Option String := some s
 def pSet (s : String) : Option (List Int) := if s = "-" then some [] else (s.splitOn ",").mapM String.toInt?
 def pOpt {α} (p : String → Option α) (s : String) : Option (Option α) := if s = "None" then some none else (p s).map some
+def pListOf {α} (p : String → Option α) (s : String) : Option (List α) :=
+  if s = "[]" then some [] else (s.splitOn "|").mapM p
 def fuelDefault : Nat := 100000
 """
 
